@@ -426,6 +426,15 @@ func (e *Engine) zipVal(a, b Val, f func(x, y *Term) *Term) Val {
 		if x.Cap != nil && y.Cap != nil {
 			r.Cap = f(x.Cap, y.Cap)
 		}
+		if x.Arr != nil && y.Arr != nil {
+			// two ghost byte strings: the detached content is merged as well (a mixed merge loses the content, which
+			// then reads as unconstrained bytes: incomplete, never unsound)
+			if x.Arr == y.Arr {
+				r.Arr = x.Arr
+			} else {
+				r.Arr = f(x.Arr, y.Arr)
+			}
+		}
 		return r
 	case PSlice:
 		y := b.(PSlice)
